@@ -28,7 +28,7 @@ LEVEL = "exploration"
 RULE = (
     "pools of 3-6 similar contractions (index order permuted within tensors/output, tensor order permuted, one size "
     "changed, relabelled, extra unused size_dict entry) queried 6-20 times in random order through one reusable "
-    "optimizer x {hyper, random-greedy} x hash_method {a,b} x directory {None, path} x directory_split x overwrite "
+    "optimizer x {hyper, random-greedy, hyper-compressed (chi 2/4/8)} x hash_method {a,b} x directory {None, path} x directory_split x overwrite "
     "{False, True, 'improved'} x cache_only, slicing options on; re-opened by fresh objects and fresh processes; "
     "distinct = distinct (pool, configuration, query sequence); non-trivial = >=1 hit on an entry"
 )
@@ -37,7 +37,7 @@ ASSUMPTIONS = [
     "'equally valid' = path well-formed for the query, stored sliced indices exist in it, stored score == recomputed score",
 ]
 REQUIRED_MONITORS = ["queries", "hits", "misses", "repeat_same_order", "tree_of_query", "sliced_as_stored", "score_as_stored",
-                     "sharing_events", "permuted_share", "fresh_object_reload", "fresh_process_reload", "cache_only", "improved_monotone"]
+                     "sharing_events", "permuted_share", "fresh_object_reload", "fresh_process_reload", "cache_only", "improved_monotone", "compressed_answers"]
 SHARD_TIMEOUT = {"quick": 500, "thorough": 3600}
 
 
@@ -130,6 +130,10 @@ def make_opt(cfg, directory, counter):
             methods=["greedy"], max_repeats=cfg["max_repeats"], parallel=False, optlib="random", seed=cfg["seed"], minimize=cfg["minimize"],
             slicing_opts={"target_size": cfg["target_size"], "max_repeats": 2} if cfg["slicing"] else None, progbar=False, **kw,
         )
+    elif cfg["kind"] == "hyper-compressed":
+        opt = ctg.ReusableHyperCompressedOptimizer(
+            chi=cfg["chi"], methods=["greedy-compressed"], max_repeats=cfg["max_repeats"], parallel=False, optlib="random", seed=cfg["seed"], progbar=False, **kw,
+        )
     else:
         opt = ReusableRandomGreedyOptimizer(max_repeats=cfg["max_repeats"], seed=cfg["seed"], parallel=False, **kw)
     orig = opt._get_suboptimizer
@@ -145,6 +149,8 @@ def make_opt(cfg, directory, counter):
 def recomputed_score(cfg, tree):
     if cfg["kind"] == "hyper":
         return tree.get_score(cfg["minimize"])
+    if cfg["kind"] == "hyper-compressed":
+        return tree.get_score(f"peak-compressed-{cfg['chi']}")
     import math
 
     return math.log10(tree.total_flops())
@@ -159,6 +165,8 @@ cfg = json.loads(sys.argv[1]); qs = json.loads(sys.argv[2]); directory = sys.arg
 kw = dict(directory=directory, hash_method=cfg["hash_method"], cache_only=True, directory_split=cfg["directory_split"])
 if cfg["kind"] == "hyper":
     opt = ctg.ReusableHyperOptimizer(methods=["greedy"], max_repeats=1, parallel=False, optlib="random", minimize=cfg["minimize"], **kw)
+elif cfg["kind"] == "hyper-compressed":
+    opt = ctg.ReusableHyperCompressedOptimizer(chi=cfg["chi"], methods=["greedy-compressed"], max_repeats=1, parallel=False, optlib="random", **kw)
 else:
     opt = ReusableRandomGreedyOptimizer(max_repeats=1, parallel=False, **kw)
 out = []
@@ -166,7 +174,7 @@ for q in qs:
     inputs = tuple(map(tuple, q["inputs"])); output = tuple(q["output"])
     try:
         tree = opt.search(inputs, output, q["size_dict"])
-        out.append({"ok": True, "path": [list(p) for p in tree.get_path()], "sliced": list(tree.sliced_inds), "n": tree.N, "complete": bool(tree.is_complete())})
+        out.append({"ok": True, "path": [list(p) for p in tree.get_path()], "sliced": list(tree.sliced_inds), "n": tree.N, "complete": bool(tree.is_complete()), "cls": type(tree).__name__})
     except KeyError:
         out.append({"ok": False, "err": "KeyError"})
     except Exception as e:
@@ -266,6 +274,14 @@ def run_history(rep, case, workdir):
             m = ref.check_tree_struct(net.N, ct.children_of(tree))
             if m:
                 return ("tree_incomplete", step, f"{where}: {m}", detail)
+            if cfg["kind"] == "hyper-compressed":
+                # the answer of a compressed optimizer is an ORDERED contraction: the tree (first answer
+                # and every hit alike) is a ContractionTreeCompressed whose path is the stored order
+                rep.mon("compressed_answers")
+                if type(tree).__name__ != "ContractionTreeCompressed":
+                    return ("tree_class", step, f"{where}: {'miss' if missing else 'hit'} returned a {type(tree).__name__}, not a ContractionTreeCompressed", detail)
+                if tuple(map(tuple, tree.get_path())) != tuple(map(tuple, con["path"])):
+                    return ("order_as_stored", step, f"{where}: {'miss' if missing else 'hit'}: tree.get_path() is not the stored contraction order", detail)
             rep.mon("sliced_as_stored")
             if tuple(tree.sliced_inds) != tuple(con["sliced_inds"]) and set(tree.sliced_inds) != set(con["sliced_inds"]):
                 return ("sliced_as_stored", step, f"{where}: tree sliced on {tuple(tree.sliced_inds)} but the stored entry says {tuple(con['sliced_inds'])}", detail)
@@ -318,6 +334,8 @@ def run_history(rep, case, workdir):
             if not r["ok"]:
                 return ("reload", len(case["queries"]), f"fresh process could not read the entry for {tag}: {r['err']}", {})
             con = opt._cache[h]
+            if cfg["kind"] == "hyper-compressed" and r.get("cls") != "ContractionTreeCompressed":
+                return ("reload", len(case["queries"]), f"fresh process rebuilt a {r.get('cls')} for {tag}", {})
             if [list(p) for p in con["path"]] != r["path"] or set(con["sliced_inds"]) != set(r["sliced"]) or not r["complete"] or r["n"] != net.N:
                 return ("reload", len(case["queries"]), f"fresh process reconstructs a different tree for {tag}", {})
     return None
@@ -331,7 +349,8 @@ def gen_case(rng, cs, tier):
     pool = variants(rng, base)
     tree = ct.make_tree(base, gen.random_ssa(rng, base.N))
     cfg = {
-        "kind": rng.choice(["hyper", "hyper", "rg"]),
+        "kind": rng.choice(["hyper", "hyper", "rg", "hyper-compressed"]),
+        "chi": rng.choice([2, 4, 8]),
         "hash_method": rng.choice(["a", "a", "b"]),
         "directory": rng.random() < 0.6,
         "directory_split": rng.choice([True, False, "auto"]),
@@ -343,6 +362,8 @@ def gen_case(rng, cs, tier):
         "slicing": rng.random() < 0.7,
         "target_size": max(1, tree.max_size() // rng.choice([2, 4, 8])),
     }
+    if cfg["kind"] == "hyper-compressed":
+        cfg["slicing"] = False
     nq = rng.randint(6, budget(tier, 14, 20))
     queries = [rng.randrange(len(pool)) for _ in range(nq)]
     return {
